@@ -37,6 +37,9 @@ pub enum AOp {
     /// `with_mut(|p| *p = p.wrapping_add(v) / !*p / v)`
     WithMut(u64),
     UnsyncLoad,
+    /// `with_mut(|p| { *p = p.wrapping_add(v); panic!() })` inside `catch_unwind`: like `get_mut`
+    /// of std, the write made before the panic stays (integer types only)
+    WithMutPanic(u64),
 }
 
 #[derive(Clone, Debug, PartialEq, Eq, Hash, Serialize, Deserialize)]
@@ -151,6 +154,7 @@ pub fn build(draws: &[u16], tier: Tier) -> Case {
             },
             17 => AOp::WithMut(v),
             18 => AOp::UnsyncLoad,
+            19 if !is_ptr && !is_bool && s.chance(1, 2) => AOp::WithMutPanic(v),
             _ => AOp::Swap(v, rmw_o(&mut s)),
         };
         ops.push(op);
@@ -271,6 +275,15 @@ macro_rules! run_int {
                 AOp::WithMut(v) => {
                     let r = run_int!(@with_mut $a, |p: &mut $t| { *p = (!*p).wrapping_add(v as $t); *p });
                     $rec.push((0, r as u64));
+                }
+                AOp::WithMutPanic(v) => {
+                    let r = std::panic::catch_unwind(std::panic::AssertUnwindSafe(|| {
+                        run_int!(@with_mut $a, |p: &mut $t| {
+                            *p = (*p).wrapping_add(v as $t) ^ 1;
+                            panic!("injected failure (inside with_mut)")
+                        })
+                    }));
+                    $rec.push((3, r.is_err() as u64));
                 }
                 AOp::UnsyncLoad => $rec.push((0, run_int!(@unsync $a) as u64)),
             }
@@ -414,7 +427,7 @@ macro_rules! bool_body {
                     $rec.push((0, f(&$a) as u64));
                 }
                 // arithmetic / min / max do not exist on AtomicBool
-                AOp::Add(..) | AOp::Sub(..) | AOp::Max(..) | AOp::Min(..) => $rec.push((0, 0)),
+                AOp::Add(..) | AOp::Sub(..) | AOp::Max(..) | AOp::Min(..) | AOp::WithMutPanic(..) => $rec.push((0, 0)),
             }
         }
     }};
